@@ -20,9 +20,11 @@ Section Tables.
   Qed.
 
   (* the executable check implies the round trip for every listed variant *)
-  Lemma table_ok_sound : table_ok t = true -> forall v, In v (t_all t) -> t_dec t (t_enc t v) = Some v.
+  Lemma table_ok_sound bad : table_ok t bad = true ->
+    forall v, In v (t_all t) -> listed t bad v = false -> t_dec t (t_enc t v) = Some v.
   Proof.
-    unfold table_ok. intros H v Hin. rewrite forallb_forall in H. apply rt_ok_sound. now apply H.
+    unfold table_ok. intros H v Hin Hl. rewrite forallb_forall in H. apply rt_ok_sound.
+    specialize (H v Hin). rewrite Hl, orb_false_r in H. exact H.
   Qed.
 
   (* a decoder that inverts the encoder makes the encoder injective *)
@@ -65,17 +67,19 @@ Section ExprRoundTrip.
   Variable op_eqb : Op -> Op -> bool.
   Variable enc_op : Op -> string.
   Variable dec_op : string -> option Op.
+  Variable good_op : Op -> bool.
   Variable Ty : Type.
   Variable enc_ty : Ty -> string.
   Variable dec_ty : string -> option Ty.
   Hypothesis op_eqb_true : forall a b, op_eqb a b = true -> a = b.
-  Hypothesis dec_enc_op : forall o, dec_op (enc_op o) = Some o.
+  Hypothesis dec_enc_op : forall o, good_op o = true -> dec_op (enc_op o) = Some o.
   Hypothesis dec_enc_ty : forall t, dec_ty (enc_ty t) = Some t.
 
   Local Notation expr := (expr Op Ty).
   Local Notation pexpr := (pexpr).
   Local Notation encode := (encode Op op_eqb enc_op Ty enc_ty).
   Local Notation decode := (decode Op dec_op Ty dec_ty).
+  Local Notation plain := (plain good_op).
 
   (* the loop of serialize_expr's BinaryExpr arm, named *)
   Definition chain (op : Op) : expr -> list pexpr -> list pexpr :=
@@ -116,7 +120,7 @@ Section ExprRoundTrip.
     { intros cur pacc acc IH Hp Hacc. rewrite omap_all_cons, IH, Hacc by (auto; lia). reflexivity. }
     induction cur; intros pacc acc IH Hp Hacc; try (apply base; assumption).
     rewrite chain_binary. cbn [lin]. destruct (op_eqb op0 op) eqn:E; [|apply base; assumption].
-    cbn [plain] in Hp. apply andb_true_iff in Hp as [Hp1 Hp2].
+    cbn [ProtoCodec.plain] in Hp. apply andb_true_iff in Hp as [Hp1 Hp2]. apply andb_true_iff in Hp1 as [Hg Hp1].
     rewrite <- app_assoc. cbn [app].
     apply IHcur1; [| assumption |].
     - intros x Hx. apply IH. cbn [esize]. lia.
@@ -158,26 +162,26 @@ Section ExprRoundTrip.
     { pose proof (esize_pos e). lia. }
     destruct e; cbn [esize] in Hle.
     - reflexivity.
-    - cbn [plain] in Hp. destruct m; [discriminate|]. reflexivity.
+    - cbn [ProtoCodec.plain] in Hp. destruct m; [discriminate|]. reflexivity.
     - (* binary chain *)
-      rewrite encode_binary. cbn [decode]. rewrite dec_enc_op.
-      cbn [plain] in Hp. apply andb_true_iff in Hp as [Hp1 Hp2].
+      cbn [ProtoCodec.plain] in Hp. apply andb_true_iff in Hp as [Hp1 Hp2]. apply andb_true_iff in Hp1 as [Hg Hp1].
+      rewrite encode_binary. cbn [decode]. rewrite dec_enc_op by assumption.
       rewrite (chain_decodes op e1 [encode e2] [e2]).
       + apply reduce_lin.
       + intros x Hx Hpx. apply IH; [lia | assumption].
       + assumption.
       + rewrite omap_all_cons, IH by (assumption || lia). reflexivity.
-    - cbn [plain] in Hp. cbn [encode decode req]. rewrite IH by (assumption || lia). reflexivity.
-    - cbn [plain] in Hp. cbn [encode decode req]. rewrite IH by (assumption || lia). reflexivity.
-    - cbn [plain] in Hp. cbn [encode decode req]. rewrite IH by (assumption || lia). reflexivity.
-    - cbn [plain] in Hp. cbn [encode decode req]. rewrite IH by (assumption || lia). reflexivity.
-    - cbn [plain] in Hp. apply andb_true_iff in Hp as [Hp Hp3]. apply andb_true_iff in Hp as [Hp1 Hp2].
+    - cbn [ProtoCodec.plain] in Hp. cbn [encode decode req]. rewrite IH by (assumption || lia). reflexivity.
+    - cbn [ProtoCodec.plain] in Hp. cbn [encode decode req]. rewrite IH by (assumption || lia). reflexivity.
+    - cbn [ProtoCodec.plain] in Hp. cbn [encode decode req]. rewrite IH by (assumption || lia). reflexivity.
+    - cbn [ProtoCodec.plain] in Hp. cbn [encode decode req]. rewrite IH by (assumption || lia). reflexivity.
+    - cbn [ProtoCodec.plain] in Hp. apply andb_true_iff in Hp as [Hp Hp3]. apply andb_true_iff in Hp as [Hp1 Hp2].
       cbn [encode decode req]. rewrite !IH by (assumption || lia). reflexivity.
-    - cbn [plain] in Hp. apply andb_true_iff in Hp as [Hp Hp3]. apply andb_true_iff in Hp as [Hp1 Hp2].
+    - cbn [ProtoCodec.plain] in Hp. apply andb_true_iff in Hp as [Hp Hp3]. apply andb_true_iff in Hp as [Hp1 Hp2].
       cbn [encode]. destruct ci; cbn [decode req]; rewrite !IH by (assumption || lia);
         rewrite parse_escape_one_byte by assumption; reflexivity.
     - (* CASE *)
-      cbn [plain] in Hp. apply andb_true_iff in Hp as [Hp Hp3]. apply andb_true_iff in Hp as [Hp1 Hp2].
+      cbn [ProtoCodec.plain] in Hp. apply andb_true_iff in Hp as [Hp Hp3]. apply andb_true_iff in Hp as [Hp1 Hp2].
       cbn [encode decode].
       rewrite omap_all_map.
       + assert (Ho : opt decode (option_map encode operand) = Some operand).
@@ -192,17 +196,17 @@ Section ExprRoundTrip.
         { apply list_sum_in. apply (in_map (fun wt => (esize (fst wt) + esize (snd wt))%nat) _ _ Hin). }
         rewrite !IH by (assumption || lia). reflexivity.
     - (* IN list *)
-      cbn [plain] in Hp. apply andb_true_iff in Hp as [Hp1 Hp2].
+      cbn [ProtoCodec.plain] in Hp. apply andb_true_iff in Hp as [Hp1 Hp2].
       cbn [encode decode req]. rewrite IH by (assumption || lia).
       rewrite omap_all_map; [reflexivity|].
       intros x Hin. rewrite forallb_forall in Hp2.
       assert (Hs : (esize x <= list_sum (map esize items))%nat) by (apply list_sum_in, in_map, Hin).
       apply IH; [lia | now apply Hp2].
-    - cbn [plain] in Hp. apply andb_true_iff in Hp as [Hp1 Hp2]. destruct m; [|discriminate].
+    - cbn [ProtoCodec.plain] in Hp. apply andb_true_iff in Hp as [Hp1 Hp2]. destruct m; [|discriminate].
       cbn [encode decode req]. rewrite IH by (assumption || lia). rewrite dec_enc_ty. reflexivity.
-    - cbn [plain] in Hp. apply andb_true_iff in Hp as [Hp1 Hp2]. destruct m; [|discriminate].
+    - cbn [ProtoCodec.plain] in Hp. apply andb_true_iff in Hp as [Hp1 Hp2]. destruct m; [|discriminate].
       cbn [encode decode req]. rewrite IH by (assumption || lia). rewrite dec_enc_ty. reflexivity.
-    - cbn [plain] in Hp. apply andb_true_iff in Hp as [Hp1 Hp2]. destruct m; [discriminate|].
+    - cbn [ProtoCodec.plain] in Hp. apply andb_true_iff in Hp as [Hp1 Hp2]. destruct m; [discriminate|].
       cbn [encode decode req]. rewrite IH by (assumption || lia). destruct rel; reflexivity.
   Qed.
 
@@ -210,6 +214,11 @@ Section ExprRoundTrip.
      wire form of a chain is flat: a left-deep chain of k applications of one operator has k+1 operands *)
   Lemma lin_length_chain op (e : expr) : (1 <= List.length (lin op e))%nat.
   Proof. destruct (lin_refolds op e) as (a & rest & H & _). rewrite H. cbn. lia. Qed.
+
+  (* an operator without a decode arm makes the whole expression undecodable *)
+  Lemma unknown_operator_rejected (op : Op) (a b : expr) :
+    dec_op (enc_op op) = None -> decode (encode (EBinary a op b)) = None.
+  Proof. intros H. rewrite encode_binary. cbn [decode]. now rewrite H. Qed.
 
   (* ---- what the code drops (each is replayed on the implementation by the harness) *)
   Lemma literal_metadata_dropped (l : lit) (m : meta) :
